@@ -7,7 +7,7 @@ from krrood.entity_query_language.quantify_entity import an
 from krrood.entity_query_language.match import match, match_any, match_all, select, select_any, entity_matching, entity_selection
 from krrood.entity_query_language.symbolic import UnificationDict
 from krrood.entity_query_language.symbol_graph import SymbolGraph
-from test.dataset.semantic_world_like_classes import Container, Handle, Cabinet, Drawer, Body
+from test.dataset.semantic_world_like_classes import Container, Handle, Cabinet, Drawer, Body, FixedConnection
 
 a = args()
 rep = Report("C11", "patterns over Cabinet/Drawer/Handle/Container: literal equality, membership of a literal in a collection attribute, nested match "
@@ -93,6 +93,35 @@ def _(h, c, d, cabs):
         yield (n, lambda: an(entity_selection(Drawer, d)(handle=hs(name=n))), [x for x in d if x.handle.name == n], ("handle", hs))
 
 
+@pattern("drawer.correct=literal")
+def _(h, c, d, cabs):
+    """None / False / True are literals like any other (equality with the attribute value)"""
+    marked = [Drawer(handle=h[0], container=c[1], correct=True), Drawer(handle=h[1], container=c[2], correct=False), Drawer(handle=h[2], container=c[1], correct=None)] + list(d[:2])
+    for v in (None, False, True):
+        yield (repr(v), lambda: an(entity_matching(Drawer, marked)(correct=v)), [x for x in marked if x.correct is v], None)
+        yield (f"{v!r}+handle", lambda: an(entity_matching(Drawer, marked)(correct=v, handle=match(Handle)(name="H0"))), [x for x in marked if x.correct is v and x.handle.name == "H0"], None)
+
+
+@pattern("connection.parent=nested-subtype")
+def _(h, c, d, cabs):
+    """the nested type is a STRICT subtype of the declared attribute type (Body): values of a sibling type do not match, whether the
+    inner part is only matched or also selected"""
+    conns = [FixedConnection(parent=c[1], child=h[1]), FixedConnection(parent=Handle("C1"), child=c[0]), FixedConnection(parent=c[2], child=h[2]), FixedConnection(parent=h[0], child=c[0])]
+    for n in ("C1", "C2", "H0"):
+        yield (f"match:{n}", lambda: an(entity_matching(FixedConnection, conns)(parent=match(Container)(name=n))), [x for x in conns if isinstance(x.parent, Container) and x.parent.name == n], None)
+    yield ("match:type-only", lambda: an(entity_matching(FixedConnection, conns)(parent=match(Container)())), [x for x in conns if isinstance(x.parent, Container)], None)
+
+
+def subtype_select_cases(h, c):
+    conns = [FixedConnection(parent=c[1], child=h[1]), FixedConnection(parent=Handle("C1"), child=c[0]), FixedConnection(parent=c[2], child=h[2]), FixedConnection(parent=h[0], child=c[0])]
+    out = []
+    for n in ("C1", "C2", None):
+        conn, part = entity_selection(FixedConnection, conns), select(Container)
+        out.append((f"select-subtype:{n}", lambda conn=conn, part=part, n=n: an(conn(parent=part(name=n) if n else part)), (conn, part),
+                    {(id(x), id(x.parent)) for x in conns if isinstance(x.parent, Container) and (n is None or x.parent.name == n)}))
+    return out
+
+
 def deep_select_cases(h, c, d, cabs):
     """parts selected one and two nested matches below the root are reported together with the matched element"""
     out = []
@@ -108,7 +137,7 @@ def deep_select_cases(h, c, d, cabs):
 for k in range(3):
     h, c, d, cabs = world(k)
     SymbolGraph()
-    for label, build, sels, want in deep_select_cases(h, c, d, cabs):
+    for label, build, sels, want in deep_select_cases(h, c, d, cabs) + subtype_select_cases(h, c):
         st, got = guarded(lambda: list(build().evaluate()))
         rep.case((k, "deep-select", label), nontrivial=bool(want), sample={"world": k, "pattern": "deep-select", "argument": label})
         inp = {"world": k, "pattern": "deep-select", "argument": label}
